@@ -22,7 +22,7 @@ type C11Case struct {
 }
 
 func genC11(g gen.G) C11Case {
-	return C11Case{World: g.RefWorld(g.Int(1, 2), false)}
+	return C11Case{World: g.RefWorld(g.Int(1, 3), false)}
 }
 
 func addrEq(a, b lang.Address) bool {
